@@ -4,6 +4,15 @@ import json, sys
 BASE = json.load(open('/root/.vp/BASELINE.json'))
 ALL = ["C%02d" % i for i in range(1, 21)]
 CHECKS = {
+ "C12": dict(cat="exploration", engine="maporder",
+   technique="exhaustive enumeration of map-iteration start positions (patched runtime, VERIF_MAPSEED) x construction paths x GOMAXPROCS in fresh processes; digest comparison",
+   text="Each compilation runs in a fresh process built with a runtime whose map-iteration start is owned; product of (mode, dims) x {BuildR1CS*, Setup*, Import*Setup, CLI r1cs} x seeds (0..15 + spread; thorough 0..63 + spread) x GOMAXPROCS {1,2,16}, plus the runtime's own randomness and three compilations in one process; one SHA-256 of the serialised constraint system per (mode, dims); exactly one public input in the system, the public witness, the verifying key and the exported Solidity; deletion depth 32/33/64 refused by all three paths, 31 builds.",
+   note="Seeds are uniform across iteration sites; maps larger than 8 buckets are covered for a spread of seeds only; goroutine-freeness of frontend.Compile is assumed (GOMAXPROCS varied).", ref="DESIGN.md C12"),
+ "C17": dict(cat="translation_validation", engine="maporder",
+   technique="per-definition comparison of the committed Lean model with ExtractLean(30,4) run on the current circuits, over enumerated map-iteration seeds x GOMAXPROCS in fresh processes",
+   text="ExtractLean(30,4) executed in fresh processes for every seed x GOMAXPROCS, 3x in-process, and through the CLI; all 54 definitions (+preamble) must equal the committed FormalVerification.lean; every SemaphoreMTB.<name> referenced by the proofs must be defined; D/B in Common.lean are 30/4; determinism sweep over other (depth, batch).",
+   note="The Lean proofs are not rebuilt (toolchain/dependencies not available offline); decided claim: model == extraction.", ref="DESIGN.md C17"),
+
  "C07": dict(cat="exploration", engine="groth16-real",
    technique="bounded-exhaustive menu: valid batches x every single-field and shape perturbation x candidate public inputs, on real Groth16 setups",
    text="Real SetupInsertion/SetupDeletion at (2,2) (thorough: +(1,1),(3,2)); valid batches from several tree states; for each, every single-field perturbation and every array-shape perturbation must yield (nil, error) without panic; every returned proof is verified against a public-input menu (hash, hash mod r, +r, +3r accept; +-1, bit flips, 0, r-1, other batches' hashes reject) and against the other mode's system.",
@@ -93,6 +102,7 @@ def main():
             {"name": "seqmc", "path": "harness/checks", "serves_properties": ["C18"], "kind_free_text": "breadth/depth-first enumeration of operation histories on fresh real objects against reference models"},
             {"name": "r1csmc", "path": "harness/r1csmc", "serves_properties": ["C01", "C02", "C03", "C04", "C05", "C06"], "kind_free_text": "explicit-state search over a compiled R1CS: partial wire assignments, forced propagation, adversary choices for unforced/hint wires, independent constraint evaluator"},
             {"name": "groth16-real", "path": "harness/checks", "serves_properties": ["C07", "C10", "C11", "C15"], "kind_free_text": "bounded-exhaustive menus and operation chains on real Groth16 setups, proofs and key files"},
+            {"name": "maporder", "path": "harness/maporder", "serves_properties": ["C12", "C17"], "kind_free_text": "go build -overlay of runtime/map.go making the random start of every map iteration an enumerable input; child processes per seed"},
             {"name": "enginemc", "path": "harness/gad", "serves_properties": ["C01", "C02", "C03", "C04", "C05", "C06"], "kind_free_text": "bounded-exhaustive evaluation of repo gadgets / full Define in gnark's test engine over small whole fields and BN254 alphabets"},
         ],
         "checks": checks,
